@@ -256,7 +256,8 @@ def hist_header_set(W, ops, prng):
     other = W["Response"]()
     other.headers[name] = "Seed"
     for op in ops:
-        x = prng.choice(["Cookie", "cookie", "COOKIE", "Accept", "x y"])
+        # (entries that need quoting in the header: blanks, a comma, backslashes in a row, a backslash before a quote)
+        x = prng.choice(["Cookie", "cookie", "COOKIE", "Accept", "x y", "x y", "a,b", "\\\\server\\share", 'tail\\"', "x\\\\\\y", 'q"r'])
         hist.append((op, x))
         if prng.random() < 0.3:
             # the other response's property is looked at between our view being handed out and being edited
@@ -683,8 +684,9 @@ def hist_mimetype_params(W, ops, prng):
             mp["q"] = 'a"b\\c'
             m["q"] = 'a"b\\c'
         elif op == "set_tokenish":
-            # values made of token characters plus one character that is not (a URN, host:port, a path, an address)
-            tv = prng.choice(["urn:ietf:x", "host:8080", "a/b", "u@h", "a=b", "x;y", "1,2", "[v]", "a?b", "{}", "sp ace"])
+            # values made of token characters plus one character that is not (a URN, host:port, a path, an address) - and
+            # values that read like more parameters
+            tv = prng.choice(["urn:ietf:x", "host:8080", "a/b", "u@h", "a=b", "x;y", "1,2", "[v]", "a?b", "{}", "sp ace", "a; level=1", "k=v;k2=v2", "was; charset=latin-1", 'x; q="y"'])
             mp["start-info"] = tv
             m["start-info"] = tv
         elif op == "refused_then_repaired":
